@@ -71,8 +71,8 @@ func bitfieldAtomIn(root *ssa.Function, v ssa.Value, param ssa.Value) string {
 }
 
 func checkC20(c *Ctx, r *Report) {
-	r.Explain = "Only the clauses of this property whose truth is in the shape of the code are decided: the BCD-plus character table; the encoding→decoder table; exact true-sets of the system-relative/device-relative predicates; the rolling-average unit multiplier table; the unsigned and two's-complement analog parsers as zero/sign extension; the Latin-1 decoder as a copy of the first c bytes; bcd.Decode as the normal form 10·b[7:4] + b[3:0]; the IPMI checksum as the negated 8-bit sum of every byte. The remaining conversions (one's complement, generic-width two's complement, packed 6-bit and BCD-plus extraction arithmetic, rolling-average byte↔duration) are value computations over finite domains; deciding them means enumerating or solving, which is outside this technique family, and they are listed as not decided."
-	r.NotDecided = []string{"complement.Ones and complement.Twos as arithmetic (value-level)", "packed 6-bit ASCII and BCD-plus nibble extraction arithmetic for every length", "rollingAvgPeriodDuration / rollingAvgPeriodByte arithmetic and round trip", "only the bounds of the string decoders (byte count covers the indices used) are decided here, not the characters they produce"}
+	r.Explain = "Only the clauses of this property whose truth is in the shape of the code are decided: the BCD-plus character table; the encoding→decoder table; exact true-sets of the system-relative/device-relative predicates; the rolling-average unit multiplier table and, arm by arm, the period encoder (unit tag ↔ divisor ↔ duration interval, one truncation, count ≤ 63 by interval or clamp); the unsigned and two's-complement analog parsers as zero/sign extension; the Latin-1 decoder as a copy of the first c bytes; bcd.Decode as the normal form 10·b[7:4] + b[3:0]; the IPMI checksum as the negated 8-bit sum of every byte. The remaining conversions (one's complement, generic-width two's complement, packed 6-bit and BCD-plus extraction arithmetic, floating-point rounding inside the rolling-average accessors) are value computations over finite domains; deciding them means enumerating or solving, which is outside this technique family, and they are listed as not decided."
+	r.NotDecided = []string{"complement.Ones and complement.Twos as arithmetic (value-level)", "packed 6-bit ASCII and BCD-plus nibble extraction arithmetic for every length", "rollingAvgPeriodDuration / rollingAvgPeriodByte round trip as a value statement (the encoder is decided arm by arm as exact rational arithmetic; floating-point rounding of time.Duration accessors is not modelled)", "only the bounds of the string decoders (byte count covers the indices used) are decided here, not the characters they produce"}
 	r.Trusted = []string{"go/types, go/ssa (x/tools v0.29.0)", "IPMI v2.0 §43.15 (type/length byte, BCD plus), §43.1 entity instance ranges, DCMI §6.6.1 time units"}
 	ir := newInitReader(c)
 
@@ -192,6 +192,8 @@ func checkC20(c *Ctx, r *Report) {
 		ok := val(0) == 1 && val(1) == 60 && val(2) == 3600 && val(3) == 86400
 		r.Check(ok, "dcmi.secondsMultiplier|table", f.Pos(), "1,60,3600,86400", fmt.Sprintf("multipliers for units 0..3 are %d,%d,%d,%d", val(0), val(1), val(2), val(3)))
 	}
+
+	checkRollingAvgEncoder(c, r)
 
 	r.Rule("extension-parsers", "unsigned parser = zero-extension, two's-complement parser = sign-extension of the raw byte", 2)
 	if v, g := ir.globalByType("pkg/ipmi", "analogDataFormatParsers", "map["+modPath+"/pkg/ipmi.AnalogDataFormat]"+modPath+"/pkg/ipmi.AnalogDataFormatParser"); g == nil {
